@@ -110,6 +110,7 @@ func (tr *tokenReader) Next() bool {
 		return true
 	}
 	// find all byte-driven tokens
+	errCount := len(tr.errs)
 	tk, ok := tr.tree.findFirst(tr)
 	if len(tr.errs) != 0 {
 		lastErr := tr.errs[len(tr.errs)-1]
@@ -121,6 +122,10 @@ func (tr *tokenReader) Next() bool {
 			return false
 		}
 		// other errors should have been corrected
+		if !ok && len(tr.errs) > errCount {
+			// the underlying reader failed; there is no byte to unread
+			return false
+		}
 	}
 	if ok {
 		if tk.kind == tokenKindNewline {
